@@ -162,6 +162,16 @@ def flag(rng, name):
     return FORCED_FLAGS.get(name, v)
 
 
+# --- the FORM of an argument (scalar / per-axis vector / full matrix ...): same mechanism with n alternatives ----------
+DRAWN_CHOICES = []    # (name, n) drawn while building the last Spec
+
+
+def choice(rng, name, n):
+    v = int(rng.integers(0, n))
+    DRAWN_CHOICES.append((name, n))
+    return int(FORCED_FLAGS.get(name, v))
+
+
 def registry():
     """name -> generator(rng, D, N, order) -> Spec  (None when the class does not support D)"""
     import exponax as ex
@@ -174,7 +184,7 @@ def registry():
     # ---------------- linear ----------------
     def advection(rng, D, N, order):
         L, dt = base(rng)
-        mode = rng.integers(0, 2)
+        mode = choice(rng, "velocity_form", 2)
         if mode == 0:
             v = _f(rng, -2, 2)
             kw, vv = {"velocity": v}, [v] * D
@@ -187,7 +197,7 @@ def registry():
 
     def diff_matrix(rng, D):
         import jax.numpy as jnp
-        mode = rng.integers(0, 3)
+        mode = choice(rng, "diffusivity_form", 3)
         if mode == 0:
             nu = _f(rng, 0.001, 0.5)
             return nu, np.eye(D) * nu
